@@ -48,9 +48,10 @@ def short(defname):
 class Graph(object):
     """A (possibly flag-refined) view of a body's CFG. Nodes are ints; node_bb maps to MIR blocks."""
 
-    def __init__(self, body, flags=None, init=None):
+    def __init__(self, body, flags=None, init=None, pinned=None):
         self.body = body
         self.flags = list(flags or [])
+        self.pinned = dict(pinned or {})
         self.node_of = {}
         self.nodes = []      # (bb, valuation)
         self.succ = []
@@ -66,6 +67,8 @@ class Graph(object):
             if s.kind == "assign" and s.place.is_local() and s.place.local in self.flags:
                 i = self.flags.index(s.place.local)
                 b = s.rv.ops[0].const_bool() if (s.rv.k == "use" and s.rv.ops) else None
+                if b is None and s.place.local in self.pinned:
+                    b = self.pinned[s.place.local]
                 val[i] = b
         t = blk.term
         if t.kind == "call" and t.dest is not None and t.dest.is_local() and t.dest.local in self.flags:
@@ -91,6 +94,13 @@ class Graph(object):
                     break
             if d is None:
                 return None
+            if d.rv.k == "use" and d.rv.ops[0].place is not None and not d.rv.ops[0].place.is_local():
+                pl = d.rv.ops[0].place
+                fs = pl.fields()
+                key = (pl.local, fs[-1]) if fs else None
+                if key in self.flags:
+                    return (self.flags.index(key), neg)
+                return None
             if d.rv.k == "use" and d.rv.ops[0].place is not None and d.rv.ops[0].place.is_local():
                 l = d.rv.ops[0].place.local
             elif d.rv.k == "unop" and d.rv.j["op"] == "Not" and d.rv.ops[0].place is not None \
@@ -104,7 +114,7 @@ class Graph(object):
 
     def _build(self, init):
         body = self.body
-        init = tuple(init) if init is not None else tuple(None for _ in self.flags)
+        init = tuple(init) if init is not None else tuple(self.pinned.get(f) for f in self.flags)
         start = (0, init)
         self.node_of[start] = 0
         self.nodes.append(start)
@@ -259,6 +269,21 @@ class Analyzer(object):
             return ("static", c["static"])
         if "uneval" in c:
             if c.get("promoted") is not None:
+                pk = "%s::{promoted#%d}" % (c.get("uneval_key"), c["promoted"])
+                pb = self.prog.lib_bodies.get(pk) if self.prog is not None else None
+                if pb is None and self.prog is not None:
+                    pb = self.prog.bodies.get(pk)
+                if pb is not None:
+                    cache = getattr(self.prog, "_promoted_cache", None)
+                    if cache is None:
+                        cache = self.prog._promoted_cache = {}
+                    if pk not in cache:
+                        cache[pk] = ("unknown", "promoted-cycle")
+                        pa = Analyzer(pb, self.prog)
+                        es = [pa.local_expr(0, (b.idx, "term"), 0) for b in pb.blocks
+                              if b.term.kind == "return" and not b.cleanup]
+                        cache[pk] = pa._phi(es) if es else ("unknown", "promoted")
+                    return cache[pk]
                 return ("const", c["ty"], "promoted:" + c["text"])
             v = None
             if self.prog is not None:
